@@ -467,9 +467,8 @@ def _parsed_extension_types(side):
 def unparsed_extension(side):
     """TlsExtensionUnparsed with a type the given side has no parser for, or an unknown / GREASE code point."""
     parsed = _parsed_extension_types(side)
-    known_unparsed = [m.value.code for m in lib.resolve(ALG + 'TlsExtensionType') if m.name not in parsed]
-    type_strategy = st.one_of(obj(TLS + 'grease:TlsInvalidTypeTwoByte', st.sampled_from(known_unparsed)),
-                              invalid_two(ALG + 'TlsExtensionType'))
+    known_unparsed = [m.name for m in lib.resolve(ALG + 'TlsExtensionType') if m.name not in parsed]
+    type_strategy = st.one_of(enum_(ALG + 'TlsExtensionType', known_unparsed), invalid_two(ALG + 'TlsExtensionType'))
     return obj(EXT + 'TlsExtensionUnparsed', type_strategy, blob(0, 120, 'ba'))
 
 
@@ -480,8 +479,7 @@ def unparsed_extension_with_member():
 
 @register(EXT + 'TlsExtensionUnparsed')
 def _unparsed():
-    return st.one_of(unparsed_extension('client'), unparsed_extension('server'), unparsed_extension('client'),
-                     unparsed_extension_with_member())
+    return st.one_of(unparsed_extension('client'), unparsed_extension('server'))
 
 
 def _extension_classes(side):
